@@ -483,7 +483,105 @@ func siC04(r *siReport) {
 		}
 		r.ok(cn)
 	}
-	r.done("every assignment of the 6 pointer slots of 3 nodes over {nil,n0,n1,n2} (4096 graphs), every 7th with a slice of pointers incl. duplicates, nil and a back edge")
+	siC04Slices(r)
+	r.done("every assignment of the 6 pointer slots of 3 nodes over {nil,n0,n1,n2} (4096 graphs), every 7th with a slice of pointers incl. duplicates, nil and a back edge; every assignment of 6 slice slots of 2 nodes over {nil, empty, two shared lists} (4096 graphs: the same slice in sibling fields, a list that contains its owner, empty slices of two element types before a shared pointer), each with typed and with untyped lists")
+}
+
+// ZS: the same slice in several fields (C04: "the same slice in two sibling fields")
+type ZS struct {
+	ID   int32
+	L, M []*ZS
+	I, J []int32
+}
+
+func siC04Slices(r *siReport) {
+	for code := 0; code < 4096; code++ {
+		n0, n1 := &ZS{ID: 1}, &ZS{ID: 2}
+		lists := [][]*ZS{nil, {n0, n1}, {n1}, {}}
+		ints := [][]int32{nil, {1, 2, 3}, {4}, {}}
+		c := code
+		pick := func() int { k := c % 4; c /= 4; return k }
+		sel := []int{pick(), pick(), pick(), pick(), pick(), pick()}
+		n0.L, n0.M, n0.I, n0.J, n1.L, n1.M = lists[sel[0]], lists[sel[1]], ints[sel[2]], ints[sel[3]], lists[sel[4]], lists[sel[5]]
+		for _, untyped := range []bool{false, true} {
+			cn := fmt.Sprintf("slices/%d/untyped=%v", code, untyped)
+			var out interface{}
+			var err error
+			func() {
+				defer func() {
+					if rec := recover(); rec != nil {
+						err = fmt.Errorf("PANIC: %v", rec)
+					}
+				}()
+				tm, nm := ExtractTypeNameMap(n0)
+				if untyped {
+					// without wire names for the list types the encoder writes untyped lists
+					nm2 := map[string]string{}
+					for k, v := range nm {
+						if !strings.HasPrefix(k, "[") && !strings.HasPrefix(v, "[") {
+							nm2[k] = v
+						}
+					}
+					nm = nm2
+				}
+				var bs []byte
+				bs, err = ToBytes(n0, nm)
+				if err == nil {
+					out, err = ToObject(bs, tm)
+				}
+			}()
+			if err != nil {
+				r.fail(cn, err.Error())
+				continue
+			}
+			g0, ok := out.(*ZS)
+			if !ok {
+				r.fail(cn, fmt.Sprintf("type %T", out))
+				continue
+			}
+			// find the decoded n1 (reachable through a list, if at all)
+			var g1 *ZS
+			for _, l := range [][]*ZS{g0.L, g0.M} {
+				for _, k := range l {
+					if k != nil && k.ID == 2 {
+						g1 = k
+					}
+				}
+			}
+			lensOf := func(a *ZS) string {
+				if a == nil {
+					return "-"
+				}
+				return fmt.Sprintf("%d:%d,%d,%v,%v", a.ID, len(a.L), len(a.M), a.I, a.J)
+			}
+			want, got := lensOf(n0), lensOf(g0)
+			if sel[0] == 1 || sel[0] == 2 || sel[1] == 1 || sel[1] == 2 {
+				want += "|" + lensOf(n1)
+				got += "|" + lensOf(g1)
+			}
+			if strings.ReplaceAll(want, "[]", "[]") != got {
+				r.fail(cn, "content differs: want "+want+" got "+got)
+				continue
+			}
+			// sharing: two non-empty slots hold the same list exactly when they did in the original
+			same := func(a, b []*ZS) bool { return len(a) > 0 && len(b) > 0 && &a[0] == &b[0] }
+			sameI := func(a, b []int32) bool { return len(a) > 0 && len(b) > 0 && &a[0] == &b[0] }
+			if same(n0.L, n0.M) != same(g0.L, g0.M) || sameI(n0.I, n0.J) != sameI(g0.I, g0.J) {
+				r.fail(cn, "sharing of sibling slices differs")
+				continue
+			}
+			if g1 != nil && (same(n0.L, n1.L) != same(g0.L, g1.L) || same(n0.M, n1.M) != same(g0.M, g1.M) || same(n0.L, n1.M) != same(g0.L, g1.M)) {
+				r.fail(cn, "sharing of slices between nodes differs")
+				continue
+			}
+			// a list that contains its owner leads back to the same object
+			if len(g0.L) > 0 && n0.L[0] == n0 && g0.L[0] != g0 {
+				r.fail(cn, "the list no longer contains its owner")
+				continue
+			}
+			r.ok(cn)
+		}
+	}
 }
 
 // ---------------------------------------------------------------- C05 / C03: streams from a reference writer
@@ -681,6 +779,9 @@ func siC03(r *siReport) {
 		{"list/compact-untyped-7", []byte{0x7f, 0x90, 0x91, 0x92, 0x93, 0x94, 0x95, 0x96}, []interface{}{int32(0), int32(1), int32(2), int32(3), int32(4), int32(5), int32(6)}},
 		{"list/type-by-ref", []byte{0x58, 0x92, 0x72, 4, '[', 'i', 'n', 't', 0x90, 0x91, 0x73, 0x90, 0x92, 0x93, 0x94}, []interface{}{[]int32{0, 1}, []int32{2, 3, 4}}},
 		{"object/long-form", append(append([]byte{'C', 6}, []byte("ZInner")...), []byte{0x92, 1, 'a', 1, 's', 'O', 0x90, 0x95, 1, 'x'}...), &ZInner{5, "x"}},
+		{"classdef/two-defs-then-instance", append(append(append([]byte{'C', 6}, []byte("ZInner")...), []byte{0x92, 1, 'a', 1, 's', 'C', 1, 'Q', 0x90}...), []byte{0x60, 0x95, 1, 'x'}...), &ZInner{5, "x"}},
+		{"classdef/def-then-list-of-instances", append(append([]byte{'C', 6}, []byte("ZInner")...), []byte{0x92, 1, 'a', 1, 's', 0x7a, 0x60, 0x95, 1, 'x', 0x60, 0x96, 1, 'y'}...), []interface{}{&ZInner{5, "x"}, &ZInner{6, "y"}}},
+		{"classdef/def-then-map", append(append([]byte{'C', 6}, []byte("ZInner")...), []byte{0x92, 1, 'a', 1, 's', 'H', 0x91, 0x60, 0x95, 1, 'x', 'Z'}...), map[interface{}]interface{}{int32(1): &ZInner{5, "x"}}},
 		{"map/untyped", []byte{'H', 0x91, 3, 'f', 'e', 'e', 'Z'}, map[interface{}]interface{}{int32(1): "fee"}},
 	}
 	for _, c := range cases {
@@ -702,7 +803,7 @@ func siC03(r *siReport) {
 			r.ok(c.name)
 		}
 	}
-	r.done("25 hand-written alternative encodings from the grammar (full-width/compact scalars, chunk splits, variable/fixed/compact lists, type back-reference, long-form instance)")
+	r.done("28 hand-written alternative encodings from the grammar (full-width/compact scalars, chunk splits, all four binary forms, variable/fixed/compact lists, type back-reference, long-form instance, class definitions away from their first instance)")
 }
 
 // ---------------------------------------------------------------- C06: streaming
@@ -969,8 +1070,13 @@ func siC14(r *siReport) {
 		names = append(names, k)
 	}
 	sort.Strings(names)
-	known := []string{"can't convert to", "reflect.Set", "reflect: call of", "reflect.Value.", "value of type", "is not assignable", "SetMapIndex", "hash of unhashable", "using unaddressable", "using zero Value", "unexported field", "reflect.MakeSlice", "interface conversion: interface", "makeslice", "reflect: New(nil)", "reflect: slice index", "Elem of invalid type", "reflect: Field index", "nil pointer dereference", "invalid memory address", "reflect.MakeMap", "of non-"}
+	known := []string{} // every documented entry point recovers (fix 8f0e47c): no panic at all may reach the caller
+	caseFile := os.Getenv("GOVC_CASEFILE")
 	try := func(cn string, bs []byte, tm map[string]reflect.Type) {
+		if caseFile != "" {
+			// a fatal error of the runtime cannot be recovered: leave the name of the running case behind
+			os.WriteFile(caseFile, []byte(fmt.Sprintf("%s input=% x", cn, bs)), 0o644)
+		}
 		done := make(chan string, 1)
 		go func() {
 			defer func() {
@@ -981,6 +1087,11 @@ func siC14(r *siReport) {
 			ToObject(bs, tm)
 			d := NewDecoder(bufio.NewReader(bytes.NewReader(bs)), tm)
 			d.ReadObject()
+			// the serializer's one-shot and streaming entry points
+			sz := NewSerializer(tm, nil)
+			sz.ToObject(bs)
+			sz.ReadFrom(bufio.NewReader(bytes.NewReader(append([]byte{0x90}, bs...))))
+			sz.Read()
 			done <- ""
 		}()
 		select {
@@ -1001,8 +1112,8 @@ func siC14(r *siReport) {
 				}
 			}
 			r.fail(cn, res)
-		case <-time.After(5 * time.Second):
-			r.fail(cn, "did not return within 5s")
+		case <-time.After(30 * time.Second):
+			r.fail(cn, "did not return within 30s")
 		}
 	}
 	for _, name := range names {
@@ -1035,6 +1146,12 @@ func siC14(r *siReport) {
 			}
 		}
 	}
+	// values that contain themselves, arriving where another type is expected (error paths must not print them)
+	try("cyclic/list-into-int-field", []byte{'C', 0x01, 'T', 0x91, 0x01, 'f', 0x60, 0x79, 0x51, 0x91}, map[string]reflect.Type{"T": reflect.TypeOf(struct{ F []int64 }{})})
+	try("cyclic/list-into-float-field", []byte{'C', 0x01, 'T', 0x91, 0x01, 'f', 0x60, 0x79, 0x51, 0x91}, map[string]reflect.Type{"T": reflect.TypeOf(struct{ F []float64 }{})})
+	try("cyclic/list-into-uint-field", []byte{'C', 0x01, 'T', 0x91, 0x01, 'f', 0x60, 0x79, 0x51, 0x91}, map[string]reflect.Type{"T": reflect.TypeOf(struct{ F []uint32 }{})})
+	try("cyclic/list-as-struct-key", []byte{'M', 0x01, 'm', 0x79, 0x51, 0x90, 0x91, 'Z'}, map[string]reflect.Type{"m": reflect.TypeOf(ZInner{})})
+	try("cyclic/list-into-string-field", []byte{'C', 0x01, 'T', 0x91, 0x01, 'f', 0x60, 0x79, 0x51, 0x91}, map[string]reflect.Type{"T": reflect.TypeOf(struct{ F string }{})})
 	// exhaustive short inputs over a tag alphabet
 	alpha := []byte{0x00, 0x01, 0x20, 0x30, 0x41, 0x42, 0x43, 0x48, 0x49, 0x4d, 0x4e, 0x4f, 0x51, 0x52, 0x53, 0x55, 0x56, 0x57, 0x58, 0x5a, 0x60, 0x70, 0x78, 0x90}
 	var rec func(cur []byte)
@@ -1132,7 +1249,7 @@ type ZMutB struct {
 func siC16(r *siReport) {
 	witnesses := map[string][]interface{}{
 		"ZRec":      {&ZRec{}, &ZRec{V: 1, Next: &ZRec{V: 2}, Kids: []*ZRec{{V: 3}}, M: map[string]*ZRec{"k": {V: 4}}}},
-		"ZMutA":     {&ZMutA{}, &ZMutA{B: &ZMutB{A: &ZMutA{}, L: [][]ZInner{{{1, "a"}}}}}},
+		"ZMutA":     {&ZMutA{}, &ZMutA{B: &ZMutB{A: &ZMutA{}, L: [][]ZInner{{{1, "a"}}}}}, &ZMutA{B: &ZMutB{L: [][]ZInner{{{1, "a"}}, {}, {{2, "b"}}}}}},
 		"ZLists":    {&ZLists{}, siZoo(rand.New(rand.NewSource(1)), 3)["lists"]},
 		"ZMaps":     {&ZMaps{}, siZoo(rand.New(rand.NewSource(1)), 3)["maps"]},
 		"ZWithNamed": {&ZWithNamed{}, &ZWithNamed{A: ZNamed{"a"}, L: []ZNamed{{"b"}}}},
@@ -1151,7 +1268,7 @@ func siC16(r *siReport) {
 			go func() { tm, nm = ExtractTypeNameMap(w); close(done) }()
 			select {
 			case <-done:
-			case <-time.After(5 * time.Second):
+			case <-time.After(30 * time.Second):
 				r.fail(fmt.Sprintf("%s/witness%d", n, wi), "extraction did not terminate")
 				continue
 			}
@@ -1193,7 +1310,7 @@ func siC16(r *siReport) {
 		select {
 		case <-done:
 			r.ok(n + "/TypeMapOf")
-		case <-time.After(5 * time.Second):
+		case <-time.After(30 * time.Second):
 			r.fail(n+"/TypeMapOf", "did not terminate")
 		}
 	}
